@@ -295,6 +295,11 @@ def _follow(body, e, imap, depth=0):
         l = let_init(body, p)
         if l is not None:
             out += _follow(body, l["init"], imap, depth + 1)
+        else:
+            # bound inside a destructuring `let (text, _, _) = decoder.decode(..)`
+            hits = [x for x in walk_k(body, "Let") if x.get("init") is not None and x["pat"].get("k") != "Binding" and any(lid == pl[1] for _, lid in pat_bindings(x["pat"]))]
+            if len(hits) == 1:
+                out += _follow(body, hits[0]["init"], imap, depth + 1)
     return out
 
 
@@ -768,3 +773,263 @@ def r_cacheatomic(ctx, rep):
             rep.violation("R-CACHEATOMIC", key, loc(late[0]), "%s writes self.%s before a fallible step (`?` at %s): when that step fails the cache stays partly filled, the next load_* call sees it as loaded and returns Ok -- later reads depend on the history of calls" % (name, field, loc(late[0])))
         else:
             rep.holds("R-CACHEATOMIC", key, loc(writes[0]), "self.%s is written after the last fallible step" % field)
+
+
+# ----------------------------------------------------------------------------------------------
+# rules added after the eighth seeding round (second batch of indirect breaks)
+
+
+def r_strdrain(ctx, rep):
+    """C01: xlsx::read_string is handed `<si>` / `<is>` and leaves the reader *after* that element, whatever the element
+    holds behind its text (phonetic runs, phonetic properties): a success return inside the `<t>` arm is preceded by
+    `read_to_end_into(closing)`."""
+    F = ctx.facts("default")
+    fn = F.fn("xlsx::read_string")
+    key = "xlsx::read_string|R-STRDRAIN"
+    if fn is None:
+        rep.anchor_missing("R-STRDRAIN", "xlsx::read_string")
+        return
+    from .r_xml import event_matches, guard_literals
+    from .kit import virtual_arms, flat_stmts
+    n, bad = 0, []
+    for em in event_matches(fn):
+        for arm in virtual_arms(em["match"]):
+            if "t" not in guard_literals(arm):
+                continue
+            for r, anc in walk_anc(arm["body"]):
+                if r.get("k") != "Ret" or r["span"].get("desugar"):
+                    continue
+                if any(a.get("k") == "Match" and a.get("src") == "TryDesugar" for a in anc):
+                    continue
+                if not any((path_def(x) or "").endswith("Option::Some") for x in walk_k(r, "Path")):
+                    continue
+                n += 1
+                # statements of the enclosing block before the return
+                drained = False
+                for a in reversed(anc):
+                    blk = a.get("block") if a.get("k") == "BlockExpr" else None
+                    if not blk:
+                        continue
+                    for st in flat_stmts(blk):
+                        if any(x is r for x in walk(st)):
+                            break
+                        if any(c.get("name") == "read_to_end_into" for c in walk_k(st, "MethodCall")):
+                            drained = True
+                    if drained:
+                        break
+                if not drained:
+                    bad.append(r)
+    if n == 0:
+        rep.holds("R-STRDRAIN", key, loc(fn.raw), "no early success return inside the <t> arm", nontrivial=False)
+    elif bad:
+        rep.violation("R-STRDRAIN", key, loc(bad[0]), "read_string returns the text of a plain <t> without reading on to the closing tag: what follows the <t> inside the element (`<rPh>`, `<phoneticPr>`) is left for the caller, which takes it for a cell child (inline strings: UnexpectedNode, the sheet fails)")
+    else:
+        rep.holds("R-STRDRAIN", key, loc(fn.raw), "%d early success return(s), each after read_to_end_into(closing)" % n)
+
+
+def r_at_override(ctx, rep):
+    """C04 / C07: `worksheet_range_at(n)` is defined once, in the Reader trait, as "the n-th *sheet name*, then by name".
+    A reader that overrides it must go through the sheet-name list as well -- never index a map of sheets, whose order
+    is not the workbook's."""
+    F = ctx.facts("default")
+    n = 0
+    for fn in F.fns:
+        short = fn.name.rsplit("::", 1)[-1]
+        if short not in ("worksheet_range_at", "worksheet_range_at_ref", "worksheet_formula_at") or fn.impl_trait not in ("Reader", "ReaderRef") or not fn.impl_self:
+            continue
+        n += 1
+        key = "%s|R-AT|override" % fn.name
+        bad = [c for c in walk_k(fn.body, "MethodCall") if c.get("name") in ("nth", "keys", "values", "iter", "into_iter", "first_key_value", "last_key_value") and ("BTreeMap" in (peel(c["recv"]).get("ty") or "") or "HashMap" in (peel(c["recv"]).get("ty") or ""))]
+        names = [c for c in walk_k(fn.body, "MethodCall", "Call") if (callee(c) or "").endswith("sheet_names")] + [f for f in walk_k(fn.body, "Field") if f.get("name") == "sheets" and "Metadata" in (peel(f["e"]).get("ty") or "")]
+        if bad or not names:
+            rep.violation("R-AT", key, loc(bad[0] if bad else fn.raw), "%s overrides the trait's by-index access and does not go through the sheet-name list (it iterates a map of sheets): the n-th sheet of the workbook and the n-th key of the map differ whenever the names are not sorted" % fn.name)
+        else:
+            rep.holds("R-AT", key, loc(fn.raw), "override goes through sheet_names()")
+    if n == 0:
+        rep.holds("R-AT", "readers|R-AT|override", "-", "no reader overrides the by-index accessors of the trait", nontrivial=False)
+
+
+def r_fmlaval_ctor(ctx, rep):
+    """C02 / C08: [MS-XLS] 2.5.133: FormulaValue kind 1 is a boolean, kind 3 a *blank string* -- a value, not an empty
+    cell (the reader filters nothing, so an Empty here would still shape the range)."""
+    F = ctx.facts("default")
+    fn = F.fn("xls::parse_formula_value")
+    if fn is None:
+        rep.anchor_missing("R-TAB-FMLAVAL", "xls::parse_formula_value")
+        return
+    from .r_tables import variants_built
+    want = {1: "Bool", 3: "String"}
+    seen = set()
+    for m in walk_k(fn.body, "Match"):
+        for a in m.get("arms", []):
+            for sl in walk_k(a["pat"], "Slice"):
+                before = sl.get("before") or []
+                lits = [v for v in pat_literals(before[0])[0] if isinstance(v, int)] if before else []
+                for k in lits:
+                    if k in want and len(lits) == 1:
+                        seen.add(k)
+                        key = "xls::parse_formula_value|R-TAB-FMLAVAL|%d|ctor" % k
+                        vs = set(variants_built(a["body"], "Data"))
+                        if vs == {want[k]}:
+                            rep.holds("R-TAB-FMLAVAL", key, loc(a), "kind %d builds Data::%s" % (k, want[k]))
+                        else:
+                            rep.violation("R-TAB-FMLAVAL", key, loc(a), "FormulaValue kind %d builds %s; [MS-XLS] 2.5.133 makes it a %s value (Data::%s)" % (k, sorted(vs) or "nothing", "boolean" if k == 1 else "blank string", want[k]))
+    if not seen:
+        rep.holds("R-TAB-FMLAVAL", "xls::parse_formula_value|R-TAB-FMLAVAL|ctor", loc(fn.raw), "kinds 1 / 3 share an arm (decided by R-TAB-FMLAVAL byte clause only)", nontrivial=False)
+
+
+_VISIT = {"visit_bool": {"Bool"}, "visit_i64": {"Int"}, "visit_u64": {"Int"}, "visit_f64": {"Float"}, "visit_str": {"String"}, "visit_string": {"String"},
+          "visit_none": {"Empty"}, "visit_unit": {"Empty"}}
+
+
+def r_tab_visit(ctx, rep):
+    """C09: a record field of type `Data` receives the cell as it is.  The serde visitor of `Data` maps each visit_*
+    callback to exactly its own variant (visit_str -> String for every string, the empty one included)."""
+    F = ctx.facts("default")
+    from .r_tables import variants_built
+    n = 0
+    for fn in F.fns_in("src/datatype.rs"):
+        short = fn.name.rsplit("::", 1)[-1]
+        if short not in _VISIT or "DataVisitor" not in (fn.impl_self or fn.name) or "DataRef" in (fn.impl_self or ""):
+            continue
+        n += 1
+        key = "%s|R-TAB-VISIT" % fn.name
+        vs = set(variants_built(fn.body, "Data"))
+        # `visit_str` may forward to the sibling `visit_string` unconditionally
+        fwd = [c for c in walk_k(fn.body, "MethodCall") if c.get("name") in _VISIT and c.get("name") != short]
+        from .kit import body_stmts
+        if not vs and len(fwd) == 1 and len(body_stmts(fn.body)) == 1 and _VISIT[fwd[0]["name"]] == _VISIT[short]:
+            rep.holds("R-TAB-VISIT", key, loc(fn.raw), "%s forwards to %s" % (short, fwd[0]["name"]))
+            continue
+        if vs == _VISIT[short]:
+            rep.holds("R-TAB-VISIT", key, loc(fn.raw), "%s -> Data::%s" % (short, sorted(vs)[0]))
+        else:
+            rep.violation("R-TAB-VISIT", key, loc(fn.raw), "the serde visitor of Data builds %s in %s (expected only %s): a `Data` field of a record would not receive the cell unchanged" % (sorted(vs), short, sorted(_VISIT[short])))
+    if n < 6:
+        rep.anchor_missing("R-TAB-VISIT", "visit_* methods of the Data visitor in src/datatype.rs (found %d)" % n)
+
+
+def r_dtvalue(ctx, rep):
+    """C09 / C03 / C10: `ExcelDateTime::as_f64` is the stored serial, unchanged (the deserializer hands it to f64 /
+    untyped targets; a rebased value would differ from the same cell's text)."""
+    F = ctx.facts("default")
+    fn = F.fn("datatype::ExcelDateTime::as_f64")
+    key = "datatype::ExcelDateTime::as_f64|R-DTVALUE"
+    if fn is None:
+        rep.anchor_missing("R-DTVALUE", "datatype::ExcelDateTime::as_f64")
+        return
+    from .kit import body_stmts
+    st = body_stmts(fn.body)
+    ok = len(st) == 1 and field_chain(st[0].get("e")) == ("self", ["value"])
+    if ok:
+        rep.holds("R-DTVALUE", key, loc(fn.raw), "returns self.value")
+    else:
+        rep.violation("R-DTVALUE", key, loc(fn.raw), "ExcelDateTime::as_f64 is not the stored serial: numeric and untyped targets of the deserializer (and every caller comparing serials) see a value the file does not contain")
+
+
+def r_dbcs_flag(ctx, rep):
+    """C12: whether a BIFF8 character run is stored on 8 or 16 bits is said by its flag byte (and, without a flag, by
+    the workbook encoding) -- never by how many bytes happen to be left in the current record, which changes with the
+    CONTINUE split.  `XlsEncoding::high_byte` therefore takes no length and calls no `len()`."""
+    F = ctx.facts("default")
+    fn = F.fn("cfb::XlsEncoding::high_byte")
+    key = "cfb::XlsEncoding::high_byte|R-DBCS-FLAG"
+    if fn is None:
+        rep.anchor_missing("R-DBCS-FLAG", "cfb::XlsEncoding::high_byte")
+        return
+    ints = [p for p in fn.params if (p.get("ty") or "") in ("usize", "u32", "u64", "u16", "&[u8]")]
+    lens = [c for c in walk_k(fn.body, "MethodCall") if c.get("name") == "len"]
+    if ints or lens:
+        rep.violation("R-DBCS-FLAG", key, loc(fn.raw), "XlsEncoding::high_byte looks at a length (%s): the storage form of a string would depend on where a CONTINUE record happens to split it" % ", ".join([p.get("name", "?") for p in ints] + ["len()"] * len(lens)))
+    else:
+        rep.holds("R-DBCS-FLAG", key, loc(fn.raw), "decided by the flag and the workbook encoding only")
+
+
+def r_sstcount(ctx, rep):
+    """C12 / C19: the shared-string table has cstUnique entries; the count read from the SST record is used as it is (no
+    `min` / `clamp` against what is left in the first record: the table continues in CONTINUE records)."""
+    F = ctx.facts("default")
+    fn = F.fn("xls::parse_sst")
+    key = "xls::parse_sst|R-SSTCOUNT"
+    if fn is None:
+        rep.anchor_missing("R-SSTCOUNT", "xls::parse_sst")
+        return
+    bad = [c for c in walk_k(fn.body, "MethodCall", "Call") if (callee(c) or "").rsplit("::", 1)[-1] in ("min", "clamp") and (callee(c) or "").startswith("core::cmp")]
+    bad += [c for c in walk_k(fn.body, "MethodCall") if c.get("name") in ("min", "clamp", "take")]
+    if bad:
+        rep.violation("R-SSTCOUNT", key, loc(bad[0]), "parse_sst bounds the number of strings it reads (`%s`): a table that continues in CONTINUE records is silently cut short and later LABELSST cells vanish" % bad[0].get("name", "min"))
+    else:
+        rep.holds("R-SSTCOUNT", key, loc(fn.raw), "the declared count is used unclamped")
+
+
+def r_tou32(ctx, rep):
+    """C13: FAT / DIFAT / mini-FAT sectors are arrays of 32-bit entries indexed by sector number: `utils::to_u32` yields
+    one entry per 4 bytes, all of them (trailing FREESECT entries keep later sectors at their index)."""
+    F = ctx.facts("default")
+    fn = F.fn("utils::to_u32")
+    key = "utils::to_u32|R-TOU32"
+    if fn is None:
+        rep.anchor_missing("R-TOU32", "utils::to_u32")
+        return
+    from .kit import body_stmts
+    st = body_stmts(fn.body)
+    tail = unwrap(st[-1].get("e")) if st else None
+    chain = []
+    e = tail
+    while isinstance(e, dict) and e.get("k") == "MethodCall":
+        chain.append(e["name"])
+        e = peel(e["recv"])
+    chain.reverse()
+    allowed = {"chunks", "chunks_exact", "map", "iter", "into_iter", "copied", "cloned"}
+    extra = [m for m in chain if m not in allowed]
+    root_ok = isinstance(e, dict) and e.get("k") == "Path" and path_local(e) and fn.params and path_local(e)[1] == fn.params[0].get("lid")
+    if not root_ok:
+        extra.append("(not over the whole input slice)")
+    if not chain or extra or not any(m in ("chunks", "chunks_exact") for m in chain):
+        rep.violation("R-TOU32", key, loc(fn.raw), "utils::to_u32 is not a plain one-entry-per-4-bytes map (adaptors: %s): dropping, skipping or filtering entries shifts every later sector's FAT index" % (chain or "none"))
+    else:
+        rep.holds("R-TOU32", key, loc(fn.raw), " . ".join(chain))
+
+
+def r_cfbtail(ctx, rep):
+    """C13 / C20: the last sector of a compound file may be short (files are not always padded to a sector boundary):
+    `Sectors::get` fills what it can and stops at end of input -- it does not `read_exact`."""
+    F = ctx.facts("default")
+    fn = F.fn("cfb::Sectors::get")
+    key = "cfb::Sectors::get|R-CFBTAIL"
+    if fn is None:
+        rep.anchor_missing("R-CFBTAIL", "cfb::Sectors::get")
+        return
+    from .kit import with_new_callees
+    ex = [c for b in with_new_callees(F, fn) for c in walk_k(b, "MethodCall") if c.get("name") == "read_exact"]
+    rd = [c for b in with_new_callees(F, fn) for c in walk_k(b, "MethodCall") if c.get("name") == "read" and (callee_decl_(c) or "").endswith("Read::read")]
+    if ex or not rd:
+        rep.violation("R-CFBTAIL", key, loc(ex[0] if ex else fn.raw), "Sectors::get reads a sector with read_exact (or not with Read::read at all): a file whose last sector is not padded to the sector size fails to open although every stream in it is complete")
+    else:
+        rep.holds("R-CFBTAIL", key, loc(rd[0]), "sector filled by Read::read until end of input")
+
+
+def callee_decl_(c):
+    from .kit import callee_decl
+    return callee_decl(c)
+
+
+def r_recsize(ctx, rep):
+    """C19 / C03: an xlsb record may be up to 2^28 - 1 bytes; `RecordIter::fill_buffer` raises no error of its own on
+    the decoded size (it only propagates read errors): a 32 767-character string plus its header does not fit 64 KiB."""
+    F = ctx.facts("default")
+    fn = F.fn("xlsb::RecordIter::fill_buffer")
+    key = "xlsb::RecordIter::fill_buffer|R-RECSIZE"
+    if fn is None:
+        rep.anchor_missing("R-RECSIZE", "xlsb::RecordIter::fill_buffer")
+        return
+    from .kit import with_new_callees
+    errs = []
+    for b in with_new_callees(F, fn):
+        for x, anc in walk_anc(b):
+            if x.get("k") == "Call" and (callee(x) or "").endswith("Result::Err") and not any(a.get("k") == "Match" and a.get("src") == "TryDesugar" for a in anc):
+                errs.append(x)
+    if errs:
+        rep.violation("R-RECSIZE", key, loc(errs[0]), "fill_buffer rejects a record by itself (an Err built at %s): record sizes up to 2^28 - 1 are legal, long strings need more than 64 KiB" % loc(errs[0]))
+    else:
+        rep.holds("R-RECSIZE", key, loc(fn.raw), "only read errors are propagated")
